@@ -318,7 +318,6 @@ func TestVerifC19Rsv(t *testing.T) {
 				}
 				h.Op("rsv assign %d %d %s", p.pid, p.rid, vInts(p.req[:]))
 				pod := c19BuildPod(p.pid, p.req)
-				unbound := pod.DeepCopy()
 				nodeName := c19NodeName(o.node)
 				cs := framework.NewCycleState()
 				cs.Write(stateKey, &stateData{})
@@ -343,7 +342,6 @@ func TestVerifC19Rsv(t *testing.T) {
 					p.obj = pod
 					pods[p.pid] = p
 					order = append(order, p.pid)
-					_ = unbound
 				}
 				h.Obs("assign %d %d", st, rt)
 				h.Tag("op:assign")
@@ -405,6 +403,18 @@ func TestVerifC19Rsv(t *testing.T) {
 		}
 		h.Tag(fmt.Sprintf("surviving-assigned:%d", alive))
 		liveSum := c19Summary(live.cache)
+		// the early-pod stream reports at most one failure per case, under its own fingerprint
+		earlyFailed := false
+		fail := func(fp, format string, a ...interface{}) {
+			if early {
+				if earlyFailed {
+					return
+				}
+				earlyFailed = true
+				fp = "C19:rsv-early-pod-lost"
+			}
+			h.Fail(fp, format, a...)
+		}
 
 		replay := func() []string {
 			// delivery order
@@ -503,11 +513,7 @@ func TestVerifC19Rsv(t *testing.T) {
 						got = c19Val(d, ri.Allocated)
 					}
 					if got < want {
-						fp := "C19:rsv-taken-considered-free"
-						if early {
-							fp = "C19:rsv-early-pod-lost"
-						}
-						h.Fail(fp, "reservation %d dimension %d: fresh cache holds %d allocated, surviving assigned pods request %d", o.rid, d, got, want)
+						fail("C19:rsv-taken-considered-free", "reservation %d dimension %d: fresh cache holds %d allocated, surviving assigned pods request %d", o.rid, d, got, want)
 					}
 				}
 			}
@@ -517,20 +523,12 @@ func TestVerifC19Rsv(t *testing.T) {
 		s1 := replay()
 		// ORACLE (ii): rebuilt state equals the live state
 		if strings.Join(s1, "|") != strings.Join(liveSum, "|") {
-			fp := "C19:rsv-rebuilt-differs"
-			if early {
-				fp = "C19:rsv-early-pod-lost"
-			}
-			h.Fail(fp, "live %v fresh %v", liveSum, s1)
+			fail("C19:rsv-rebuilt-differs", "live %v fresh %v", liveSum, s1)
 		}
 		s2 := replay()
 		// ORACLE (iv): a second delivery order gives the same state
 		if strings.Join(s1, "|") != strings.Join(s2, "|") {
-			fp := "C19:rsv-order-dependent"
-			if early {
-				fp = "C19:rsv-early-pod-lost"
-			}
-			h.Fail(fp, "first %v second %v", s1, s2)
+			fail("C19:rsv-order-dependent", "first %v second %v", s1, s2)
 		}
 		h.End()
 	}
